@@ -3,6 +3,7 @@
 
 pub mod config;
 pub mod rp;
+pub mod rrdpdisk;
 
 use std::collections::HashMap;
 use std::fs::File;
